@@ -15,7 +15,7 @@ claimed = {
    note='Trusted: shim fidelity (selftest), sequential consistency, runtime/debug disabled. Four genuine defects are listed in known_findings.json (lost wake-up in Stack.SignalShutdown, Submit-vs-Shutdown window, restart deadlock).', ref='2 C16'),
  'C08': dict(cat='model_checking', engine='S',
    technique='stateless model checking of the real code under a controlled scheduler (virtual clock for the batch time-out): delay-bounded DFS with a happens-before state cache',
-   text='Producers, Flush, one or two StopBatchWriter callers and the writer goroutine of the real BatchedWriter over the real mapdb are explored for queue sizes 0-2 and batch sizes 1-2 with at most 2 (quick) / 3 (thorough) deviations (early time-out firing is a deviation). Oracle on the recorded log: BatchWrite -> store commit -> BatchWriteDone per scheduling, nothing after Stop returned, store contents == last BatchWrite, every Enqueue that returned before Stop was invoked is written, every call returns.',
+   text='Producers, Flush, one or two StopBatchWriter callers and the writer goroutine of the real BatchedWriter over the real mapdb are explored for queue sizes 0-2 and batch sizes 1-2 with at most 2 (quick) / 3 (thorough) deviations (early time-out firing is a deviation). Oracle on the recorded log: BatchWrite -> store commit -> BatchWriteDone per scheduling, nothing after Stop returned, store contents == last BatchWrite, every Enqueue that returned before Stop was invoked is written, every call returns (a writer that is kept alive by nothing but its batch timer while Stop waits for it is reported as a livelock); one directed four-party scenario (busy writer, pending Flush, Stop, withdrawing producer) uses waiting object callbacks.',
    note='Trusted: shim fidelity incl. timers (selftest); harness object implements the scheduled flag as atomic test-and-set. Two genuine defects were repaired (fix: commits a4707ca, 3cdaa7b).', ref='2 C08'),
 
  'C10': dict(cat='model_checking', engine='H+S',
@@ -53,8 +53,8 @@ claimed = {
 
  'C20': dict(cat='model_checking', engine='S',
    technique='stateless model checking of the real daemon under a controlled scheduler with virtual contexts: delay-bounded DFS with a happens-before state cache; map iteration order of the worker map is an explorer-owned choice',
-   text='14 scenarios (3 workers with orders incl. ties/negatives/gaps registered before Start, workers added while running, BackgroundWorker racing ShutdownAndWait, early-exiting worker and re-registration of its name, duplicate running name, two ShutdownAndWait callers, Shutdown()+ShutdownAndWait, Run+shutdown, equal-order workers that only return after each other saw the cancellation, a lower-order worker that exits by itself on ContextStopped) are explored with at most 3 (quick) / 4 (thorough) deviations. Oracle on the recorded log: a still-running worker is cancelled only after every started worker of higher order has returned; ShutdownAndWait/Run return only after all started workers returned; nothing starts afterwards; error identities; no deadlock, no panic.',
-   note='Trusted: vcontext fidelity; cancelling an already returned worker is not judged. One genuine defect repaired (fix: commit).', ref='2 C20'),
+   text='23 scenarios (3 workers with orders incl. ties/negatives/gaps registered before Start, workers added while running, BackgroundWorker racing ShutdownAndWait, early-exiting worker and re-registration of its name, duplicate running name, two ShutdownAndWait callers, Shutdown()+ShutdownAndWait, Run+shutdown, equal-order workers that only return after each other saw the cancellation, a lower-order worker that exits by itself on ContextStopped, extreme orders, read-only queries, Start racing ShutdownAndWait, shutdown before the daemon was started followed by Start or Run) are explored with at most 3 (quick) / 4 (thorough) deviations. Oracle on the recorded log: a still-running worker is cancelled only after every started worker of higher order has returned; ShutdownAndWait/Run return only after all started workers returned; nothing starts afterwards; error identities; no deadlock, no panic.',
+   note='Trusted: vcontext fidelity; cancelling an already returned worker is not judged. Two genuine defects repaired (fix: commits; the second one, Start racing Shutdown, is 215150b).', ref='2 C20'),
 
  'C12': dict(cat='model_checking', engine='H+S',
    technique='explicit-state search over operation histories of each real container against its abstract model (BFS with state merging to the fixpoint where the model state is canonical plus an unmerged every-history pass to a budgeted depth, depth-bounded DFS otherwise); stateless model checking of concurrent PriorityQueue removal handles',
